@@ -33,7 +33,7 @@ COMPONENTS = {
 }
 ASSUMPTIONS = [
     "the server is RFC 7233 conformant (two personalities for invalid ranges: ignore -> 200 full body, or 416)",
-    "only faults the client claims to absorb are injected as must-be-invisible: ConnectionError, ConnectTimeout, ReadTimeout in bursts shorter than the 100-attempt budget",
+    "only faults the client claims to absorb are injected as must-be-invisible: ConnectionError, ConnectTimeout, ReadTimeout (before the response, or in the middle of the body after the header arrived) in bursts shorter than the 100-attempt budget",
     "outages longer than the budget: the only acceptable outcomes are an exception or correct bytes",
     "5xx statuses and truncated bodies are not injected (the statement does not quantify over server misbehaviour)",
 ]
@@ -56,7 +56,8 @@ def make_trace(seed, tier, idx=None):
         "knobs": {"chunk": c, "keep": r.choice([1, 2, 2, 3, 5]), "size": max(0, size),
                   "personality": r.choice(["strict", "s3like"]),
                   "fault_rate": r.choice([0.0, 0.0, 0.1, 0.2]), "slow_rate": r.choice([0.0, 0.0, 0.05]),
-                  "long_outage": r.random() < 0.06, "no_etag": r.random() < 0.25, "reopen_rate": r.choice([0.0, 0.04, 0.1])},
+                  "long_outage": r.random() < 0.06, "no_etag": r.random() < 0.25, "reopen_rate": r.choice([0.0, 0.04, 0.1]),
+                  "stall_rate": r.choice([0.0, 0.0, 0.1, 0.25])},
         "max_ops": r.choice([8, 20, 40, 60]),
         "ops": None,
     }
@@ -154,6 +155,7 @@ class ByteWorld:
         net.fault_rng = seeds.rng(op.get("fseed", 0), "net")
         net.fault_rate = knobs["fault_rate"] if self.t["klass"] != "s3bytes" else 0.0
         net.slow_rate = knobs["slow_rate"] if self.t["klass"] != "s3bytes" else 0.0
+        net.stall_rate = knobs.get("stall_rate", 0.0) if self.t["klass"] != "s3bytes" else 0.0
         net.fault_burst = 0
         if k == "reopen":
             import dclab.http_utils as hu
@@ -293,6 +295,7 @@ def run_dataset(trace, ctx):
     net.fault_rng = seeds.rng(ctx.seed, "net")
     net.fault_rate = k["fault_rate"]
     net.slow_rate = k["slow_rate"]
+    net.stall_rate = k.get("stall_rate", 0.0)
     with ctx.sut("C19.dataset.open"):
         dsr = fh.RTDC_HTTP(url)
     dsl = dclab.new_dataset(local)
